@@ -1498,6 +1498,44 @@ def sec_pse(ctx, rng, case):
     ctx.sample({"terms": [spec_key(x) for x in terms], "exponent": t})
 
 
+def sec_pauli_combination(ctx, rng, case):
+    """single-qubit combinations a_I I + a_X X + a_Y Y + a_Z Z raised to a non-negative integer power: the coefficient
+    routine (cirq.pow_pauli_combination) and LinearCombinationOfGates ** n against the matrix power"""
+    cirq = _S["cirq"]
+    vals = [0.0, 1.0, -1.0, 1j, -1j, 0.5, 2.0, 1 + 1j, 1e-9, 1e-12j]
+    style = int(rng.integers(3))
+    if style == 0:
+        a = [complex(vals[int(i)]) for i in rng.integers(len(vals), size=4)]
+    elif style == 1:
+        a = [complex(rng.normal(), rng.normal()) for _ in range(4)]
+    else:
+        # (a_I + v)**n == (a_I - v)**n without v being small: v = a_I * i * tan(pi k / n) along one axis
+        n0 = int(rng.choice([2, 3, 4, 6, 8]))
+        k0 = int(rng.integers(1, n0))
+        ai0 = complex(rng.choice([1.0, -0.5, 1j, 2.0]))
+        t_ = math.tan(math.pi * k0 / n0) if abs(math.cos(math.pi * k0 / n0)) > 1e-9 else 1.0
+        a = [ai0, 0j, 0j, 0j]
+        a[1 + int(rng.integers(3))] = ai0 * 1j * t_
+    n = int(rng.integers(0, 9)) if style != 2 else int(rng.choice([2, 3, 4, 6, 8]))
+    M = a[0] * _PM["I"] + a[1] * _PM["X"] + a[2] * _PM["Y"] + a[3] * _PM["Z"]
+    want = np.linalg.matrix_power(M, n)
+    scale = max(1.0, float(np.abs(want).max()))
+    b = cirq.pow_pauli_combination(a[0], a[1], a[2], a[3], n)
+    got = sum(complex(c) * _PM[l] for c, l in zip(b, "IXYZ"))
+    wit = dict(coefficients=[repr(x) for x in a], exponent=n)
+    ctx.check(close(got / scale, want / scale), "pauli-combination-pow==matrix-power", "C14:pow_pauli_combination",
+              lambda: "pow_pauli_combination gives %r, the matrix power is\n%r" % (b, want), **wit)
+    lc = cirq.LinearCombinationOfGates({cirq.I: a[0], cirq.X: a[1], cirq.Y: a[2], cirq.Z: a[3]})
+    if not len(lc) or not len(lc ** n):
+        ctx.reject("empty-linear-combination")  # no term left: the number of qubits is not known (documented ValueError)
+        return
+    gm = (lc ** n).matrix()
+    ctx.check(close(np.asarray(gm) / scale, want / scale), "pauli-combination-pow==matrix-power", "C14:linear-combination-of-gates-pow",
+              lambda: "(%s)**%d has matrix\n%r, the matrix power is\n%r" % (lc, n, gm, want), **wit)
+    ctx.distinct(("paulicomb", tuple(np.round(a, 6)), n), nontrivial=n >= 2)
+    ctx.sample(wit)
+
+
 def sec_interaction(ctx, rng, case):
     cirq = _S["cirq"]
     i0, i1 = int(rng.integers(3)), int(rng.integers(3))
@@ -1740,6 +1778,7 @@ SECTIONS = [
     ("simulate", sec_simulate, 560, 8000, 2.0),
     ("phasor", sec_phasor, 1400, 20000, 3.0),
     ("pse", sec_pse, 840, 12000, 3.0),
+    ("pauli_combination", sec_pauli_combination, 700, 10000, 0.3),
     ("interaction", sec_interaction, 280, 4000, 0.3),
     ("projector", sec_projector, 840, 12000, 1.0),
     ("observables", sec_observables, 700, 10000, 3.0),
